@@ -23,7 +23,9 @@ from common.check import PropertyCheck, Skip, hx, unhx
 from common.world import World
 
 from mitmproxy import certs
-from mitmproxy.addons import next_layer, proxyauth, proxyserver, tlsconfig, upstream_auth
+from mitmproxy import http as mhttp
+from mitmproxy.addons import clientplayback, mapremote, next_layer, proxyauth, proxyserver, tlsconfig, upstream_auth
+from mitmproxy.test import tflow
 from common.paths import WORK
 from mitmproxy.connection import Client, ConnectionState
 from mitmproxy.proxy import context, mode_specs
@@ -135,14 +137,19 @@ class TlsPeer:
 
 
 class Conn:
-    def __init__(self, tctx, cid, mode):
+    def __init__(self, tctx, cid, mode, prepared=None):
         self.cid, self.mode = cid, mode
-        spec = mode_specs.ProxyMode.parse(MODES[mode])
-        self.client = Client(peername=("192.0.2.%d" % (cid + 1), 40000 + cid), sockname=("127.0.0.1", 8080),
-                             state=ConnectionState.OPEN, proxy_mode=spec, timestamp_start=1.0)
-        self.ctx = context.Context(self.client, tctx.options)
-        if mode == "transparent":
-            self.ctx.server.address = ("origin.example", 80)
+        if prepared is not None:         # (layer, context) built by the real clientplayback.ReplayHandler
+            top, self.ctx = prepared
+            self.client = self.ctx.client
+        else:
+            spec = mode_specs.ProxyMode.parse(MODES[mode])
+            self.client = Client(peername=("192.0.2.%d" % (cid + 1), 40000 + cid), sockname=("127.0.0.1", 8080),
+                                 state=ConnectionState.OPEN, proxy_mode=spec, timestamp_start=1.0)
+            self.ctx = context.Context(self.client, tctx.options)
+            if mode == "transparent":
+                self.ctx.server.address = ("origin.example", 80)
+            top = TOP[mode](self.ctx)
         self.used = []               # (id of flow.server_conn, parameters) at every `response` hook, in order
         self.nused = 0
 
@@ -152,13 +159,13 @@ class Conn:
                 sc = h.flow.server_conn
                 self.used.append((sc.id, sc.address, bool(sc.tls), sc.sni, sc.via))
 
-        self.w = World(TOP[mode](self.ctx), self.ctx, on_hook=on_hook)
+        self.w = World(top, self.ctx, on_hook=on_hook)
         self.w.start()
         self.cpos = 0
         self.labs = {}               # server label -> stream state
         self.writes, self.nrep = [], 0
         self.tunnel = False
-        if mode == "socks5":
+        if mode == "socks5" and prepared is None:
             self.w.recv("client", SOCKS_HELLO); self.w.recv("client", SOCKS_CONNECT)
             self.cpos = len(self.w.sent_to("client"))
 
@@ -301,6 +308,12 @@ class Check(PropertyCheck):
 
     def token_of(self, case): return base64.b64encode(self.cred_of(case).encode("utf-8"))
 
+    OTHER_CRED = "second:cr3d"
+
+    def tokens_of(self, case):
+        """every credential that is configured at some time in this case"""
+        return [self.token_of(case), base64.b64encode(self.OTHER_CRED.encode())]
+
     def exhaustive(self, tier):
         import itertools
         for mode in MODES:
@@ -316,7 +329,17 @@ class Check(PropertyCheck):
             for c in self.exhaustive(tier):
                 if len(c["steps"]) <= 2 or rng.chance(0.25): yield c
         maxper = 3 if tier == "quick" else 5
+        for run in MODES:                       # client replay: every running mode x every recorded mode x scheme x host
+            for rec in MODES:
+                for scheme in ("http", "https"):
+                    for host in ("origin", "target"):
+                        if scheme == "https" and host == "target": continue
+                        yield {"op": "replay", "auth": True, "run": run, "rec": rec, "scheme": scheme, "host": host}
         while True:
+            if rng.chance(0.04):
+                yield {"op": "replay", "auth": rng.chance(0.9), "run": rng.pick(list(MODES)), "rec": rng.pick(list(MODES)),
+                       "scheme": "http", "host": rng.pick(["origin", "target"])}
+                continue
             nconn = 2 if rng.chance(0.6) else 1
             conns = [rng.weighted([(5, "upstream"), (2, "regular"), (2, "reverse"), (1, "transparent"), (1, "socks5")]) for _ in range(nconn)]
             pending = []
@@ -330,6 +353,16 @@ class Check(PropertyCheck):
             if rng.chance(0.3): opts["connection_strategy"] = "lazy"
             if rng.chance(0.2): opts["http_connect_send_host_header"] = False
             if rng.chance(0.2): opts["keep_host_header"] = True
+            # an addon rewriting http -> https between requestheaders and request (map_remote), explicit-proxy layer only
+            seen_connect = set()
+            for st in steps:
+                if st["k"] in ("c80", "c443"): seen_connect.add(st["c"])
+                elif st["k"] == "http" and is_proxy_mode(conns[st["c"]]) and st["c"] not in seen_connect and rng.chance(0.15):
+                    st["k"] = "rw"
+            # upstream_auth changed at runtime (unset -> set, set -> other credential, set -> unset) between any two steps
+            if rng.chance(0.3):
+                for _ in range(rng.randint(1, 2)):
+                    steps.insert(rng.randint(0, len(steps)), {"c": 0, "k": "opt", "auth": rng.pick([True, False, "other"])})
             pauth = rng.weighted([(8, None), (2, "good"), (2, "bad")])
             if pauth and "socks5" in conns: pauth = None       # (the SOCKS5 handshake of this harness does not authenticate)
             yield self.mk_case(rng.chance(0.85), conns, steps, opts, rng.pick(self.CREDS) if rng.chance(0.4) else None, pauth)
@@ -349,11 +382,26 @@ class Check(PropertyCheck):
             t = b"t%d.example:%d" % (idx, 80 if k == "c80" else 443)
             return b"CONNECT " + t + b" HTTP/1.1\r\nHost: " + t + b"\r\n\r\n"
         host = b"other.example" if k == "http2" else (b"s%d.example" % idx if k == "https" else
-                                                      b"s999.example" if k == "https2" else b"origin.example")
+                                                      b"s999.example" if k == "https2" else
+                                                      b"rw.example" if k == "rw" else b"origin.example")
         if is_proxy_mode(mode) and not cn.tunnel:
             scheme = b"https" if k in ("https", "https2") else b"http"
             return b"GET " + scheme + b"://" + host + b"/r%d HTTP/1.1\r\nHost: " % idx + host + b"\r\n\r\n"
         return b"GET /r%d HTTP/1.1\r\nHost: " % idx + host + b"\r\n\r\n"
+
+    def scan(self, case, writes):
+        toks = self.tokens_of(case)
+        ws = []
+        for dest, head, tls in writes:
+            form = "connect" if head.startswith(b"CONNECT ") else "request"
+            fields = [l.partition(b":") for l in head.split(b"\r\n")[1:] if l]
+            hit = lambda v: any(t in v for t in toks)
+            creds = sorted({k.strip().lower().decode("latin1") for k, _, v in fields if hit(v)})
+            other = sorted({k.strip().lower().decode("latin1") for k, _, v in fields
+                            if k.strip().lower() in (b"proxy-authorization", b"authorization") and not hit(v)})
+            stray = hit(head) and not creds
+            ws.append({"dest": dest, "form": form, "tls": tls, "creds": creds, "other_auth": other, "stray": stray})
+        return ws
 
     def impl(self, case):
         ua = upstream_auth.UpstreamAuth()
@@ -361,52 +409,91 @@ class Check(PropertyCheck):
         pa = None
         if case.get("pauth"):
             pa = proxyauth.ProxyAuth(); addons.insert(0, pa)
-        TOKEN = self.token_of(case)
-        need_tls = any(st["k"] in ("https", "https2") and is_proxy_mode(case["conns"][st["c"]]["mode"]) for st in case["steps"])
+        if case.get("op") == "replay":
+            need_tls = case["scheme"] == "https"
+            steps = []
+        else:
+            steps = case["steps"]
+            need_tls = any(st["k"] in ("https", "https2", "rw") and is_proxy_mode(case["conns"][st["c"]]["mode"]) for st in steps)
+        mr = None
+        if any(st["k"] == "rw" for st in steps):
+            mr = mapremote.MapRemote(); addons.append(mr)
         if need_tls: addons.append(tlsconfig.TlsConfig())
         addons.append(ua)
         with taddons.context(*addons) as tctx:
             if pa: tctx.configure(pa, proxyauth=self.CLIENT_CRED)
+            if mr: tctx.configure(mr, map_remote=["|http://rw.example/|https://rw.example/"])
             for k, v in (case.get("opts") or {}).items(): setattr(tctx.options, k, v)
             if need_tls:
                 ensure_confdir()
                 tctx.options.update(confdir=CONFDIR, ssl_insecure=True, http2=False)
             tctx.configure(ua, upstream_auth=self.cred_of(case) if case["auth"] else None)
+            if case.get("op") == "replay":
+                return self.run_replay(case, tctx, ua)
             conns = [Conn(tctx, cid, c["mode"]) for cid, c in enumerate(case["conns"])]
             outs = []
-            for idx, st in enumerate(case["steps"]):
+            for idx, st in enumerate(steps):
+                if st["k"] == "opt":        # upstream_auth changed at runtime
+                    v = st["auth"]
+                    tctx.configure(ua, upstream_auth=(self.OTHER_CRED if v == "other" else self.cred_of(case) if v else None))
+                    outs.append({"client": [], "writes": [], "closed": False, "conns": [], "opt": True})
+                    continue
                 cn = conns[st["c"]]
                 cn.w.recv("client", self.req_bytes(cn, st["k"], idx, case.get("pauth")))
                 cn.pump()
                 cnew, writes = cn.delta()
                 sts = parse_statuses(cnew)
-                ws = []
-                for dest, head, tls in writes:
-                    form = "connect" if head.startswith(b"CONNECT ") else "request"
-                    fields = [l.partition(b":") for l in head.split(b"\r\n")[1:] if l]
-                    creds = sorted({k.strip().lower().decode("latin1") for k, _, v in fields if TOKEN in v})
-                    other = sorted({k.strip().lower().decode("latin1") for k, _, v in fields
-                                    if k.strip().lower() in (b"proxy-authorization", b"authorization") and TOKEN not in v})
-                    stray = TOKEN in head and not creds
-                    ws.append({"dest": dest, "form": form, "tls": tls, "creds": creds, "other_auth": other, "stray": stray})
                 if st["k"] in ("c80", "c443") and sts == [200]: cn.tunnel = True
-                outs.append({"client": sts, "writes": ws, "closed": cn.client not in cn.w.transports, "conns": cn.conn_delta()})
+                outs.append({"client": sts, "writes": self.scan(case, writes), "closed": cn.client not in cn.w.transports,
+                             "conns": cn.conn_delta()})
             return {"steps": outs, "errors": [e[0] + ": " + e[1][:200] for cn in conns for e in cn.w.errors],
                     "tunneled": sorted(cn.cid for cn in conns if cn.client in getattr(ua, "tunneled", ()))}
 
+    def run_replay(self, case, tctx, ua):
+        """client replay through the real clientplayback.ReplayHandler: the flow carries the client connection (and proxy
+        mode) it was recorded with; the instance is running in mode case['run']"""
+        tctx.options.mode = [MODES[case["run"]]]
+        host = "target.example" if case["host"] == "target" else "origin.example"
+        port = TARGET[1] if case["host"] == "target" else (443 if case["scheme"] == "https" else 80)
+        f = tflow.tflow()
+        f.request = mhttp.Request.make("GET", f"{case['scheme']}://{host}:{port}/r0")
+        f.client_conn.proxy_mode = mode_specs.ProxyMode.parse(MODES[case["rec"]])
+        f.is_replay = "request"
+        h = clientplayback.ReplayHandler(f, tctx.options)
+        cn = Conn(tctx, 0, case["run"], prepared=(h.layer, h.layer.context))
+        cn.pump()
+        _, writes = cn.delta()
+        return {"steps": [{"client": [], "writes": self.scan(case, writes), "closed": False, "conns": []}],
+                "errors": [e[0] + ": " + e[1][:200] for e in cn.w.errors], "tunneled": []}
+
     # ------------------------------------------------------------------ property oracle (needs no model)
     def oracle(self, case, obs):
-        if obs["errors"]: return [f"layer raised: {obs['errors'][0]}"]
+        if obs["errors"] and case.get("op") != "replay": return [f"layer raised: {obs['errors'][0]}"]
         fails = []
+        if case.get("op") == "replay":
+            # (replaying a flow recorded in another mode while running in upstream mode trips an assertion in
+            #  HttpLayer.Start — client replay keeps the recorded proxy_mode; nothing is written then, which is all C24 asks)
+            # a replayed request is routed by the mode the instance is RUNNING in
+            for w in obs["steps"][0]["writes"]:
+                if not (w["creds"] or w["stray"]): continue
+                ok = case["auth"] and ((case["run"] == "upstream" and w["dest"] == "proxy") or
+                                       (case["run"] == "reverse" and w["dest"] == "reverseTarget"))
+                if not ok:
+                    fails.append(f"replay (running {case['run']}, flow recorded in {case['rec']}): credential written to "
+                                 f"{w['dest']} as {w['form']} ({w['creds'] or 'stray bytes'})")
+            return fails
         if case.get("pauth") == "bad" and any(o["writes"] for o in obs["steps"]):
             fails.append("a request refused by proxyauth was written upstream")
         in_tunnel = set()
+        auth_now = case["auth"]
         for idx, (st, o) in enumerate(zip(case["steps"], obs["steps"])):
+            if st["k"] == "opt":
+                auth_now = bool(st["auth"]); continue
             cid = st["c"]; mode = case["conns"][cid]["mode"]
             for w in o["writes"]:
                 has = bool(w["creds"]) or w["stray"]
                 if not has: continue
-                if not case["auth"]:
+                if not auth_now:
                     fails.append(f"step {idx}: credential bytes without upstream_auth?! {w}"); continue
                 # "sent only to the configured upstream proxy (in CONNECT requests and in plain-HTTP requests forwarded to it
                 #  in upstream mode) or to the reverse-proxy target in reverse mode"
@@ -427,6 +514,7 @@ class Check(PropertyCheck):
         if name == "origin.example": return 1
         if name == "other.example": return 2
         if name == "target.example": return 3
+        if name == "rw.example": return 4
         m = re.fullmatch(r"([st])(\d+)\.example", name)
         return (100 if m.group(1) == "s" else 200) + int(m.group(2))
 
@@ -434,11 +522,19 @@ class Check(PropertyCheck):
         evs = []
         for idx, st in enumerate(case["steps"]):
             k = st["k"]
-            if k in ("c80", "c443"): evs.append(f"{st['c']}/connect/{200 + idx}/{80 if k == 'c80' else 443}")
+            if k == "opt": evs.append("A1" if st["auth"] else "A0")
+            elif k in ("c80", "c443"): evs.append(f"{st['c']}/connect/{200 + idx}/{80 if k == 'c80' else 443}")
             else:
-                tls = k in ("https", "https2")
-                host = 2 if k == "http2" else (100 + idx if k == "https" else 1099 if k == "https2" else 1)
+                tls = k in ("https", "https2", "rw")
+                host = 2 if k == "http2" else (100 + idx if k == "https" else 1099 if k == "https2" else 4 if k == "rw" else 1)
                 evs.append(f"{st['c']}/req/{host}/{443 if tls else 80}/{1 if tls else 0}")
+        return " ".join(evs)
+
+    def run_events(self, case):
+        evs = []
+        for st in case["steps"]:
+            if st["k"] == "opt": evs.append("A1" if st["auth"] else "A0")
+            else: evs.append(f"{st['c']}/{'https' if st['k'] in ('rw', 'https2') else st['k']}")
         return " ".join(evs)
 
     def conn_token(self, c):
@@ -446,15 +542,25 @@ class Check(PropertyCheck):
         return "{%d:%d:%d:%s:%d:%d:%d}" % (self.host_id(c["addr"][0]), c["addr"][1], c["tls"],
                                             self.host_id(c["sni"]) if c["sni"] else "-", 1 if c["via"] else 0, c["idx"], c["fresh"])
 
+    @staticmethod
+    def tls_reuse_possible(case):
+        """two https requests to one origin on one client connection reuse the TLS connection (no second CONNECT): only the
+        routing model knows about reuse, the Dest-level model is not compared then"""
+        seen = set()
+        for st in case["steps"]:
+            if st["k"] in ("https2", "rw"):
+                if (st["c"], st["k"]) in seen: return True
+                seen.add((st["c"], st["k"]))
+        return False
+
     def model_lines(self, case):
+        if case.get("op") == "replay": return None     # oracle only (the replay handler is outside both models)
         if case.get("pauth") == "bad": return None     # ProxyAuth refuses everything: oracle only (nothing may be written)
-        evs = " ".join(f"{st['c']}/{st['k']}" for st in case["steps"])
         modes_ = ",".join(c["mode"] for c in case["conns"])
-        if any(st["k"] == "https2" for st in case["steps"]):
-            # repeated https requests to one origin reuse the TLS connection: only the routing model knows about reuse
-            return [f"route {1 if case['auth'] else 0} {modes_} {self.route_events(case)}"]
-        return [f"run {1 if case['auth'] else 0} {modes_} {evs}",
-                f"route {1 if case['auth'] else 0} {modes_} {self.route_events(case)}"]
+        a = 1 if case["auth"] else 0
+        if self.tls_reuse_possible(case):
+            return [f"routev {a} {modes_} {self.route_events(case)}"]
+        return [f"runv {a} {modes_} {self.run_events(case)}", f"routev {a} {modes_} {self.route_events(case)}"]
 
     def model_obs(self, case, replies):
         if len(replies) == 1: return {"run": "-", "route": replies[0]}
@@ -478,26 +584,35 @@ class Check(PropertyCheck):
         return f"?{st['k']}:{sts}:{o['closed']}" + body
 
     def impl_view(self, case, obs):
-        toks = [self.step_token(case, st, o) for st, o in zip(case["steps"], obs["steps"])]
+        pairs = [(st, o) for st, o in zip(case["steps"], obs["steps"]) if st["k"] != "opt"]
+        toks = [self.step_token(case, st, o) for st, o in pairs]
         # the routing model additionally predicts the connection that carried the request: address, tls, sni, via, reuse
         rtoks = []
-        for t, o in zip(toks, obs["steps"]):
+        for t, (st, o) in zip(toks, pairs):
             cs = o["conns"]
             if len(cs) > 1: rtoks.append("?conns:" + repr(cs)); continue
             rtoks.append(t[0] + (self.conn_token(cs[0]) if cs else "") + t[1:])
-        run = "-" if any(st["k"] == "https2" for st in case["steps"]) else \
+        run = "-" if self.tls_reuse_possible(case) else \
             " ".join(toks) + " | " + (",".join(map(str, obs["tunneled"])) or "-")
         return {"run": run, "route": " ".join(rtoks)}
 
     def classify(self, case, obs):
+        if case.get("op") == "replay": return json.dumps(case, sort_keys=True)
         if not any(o["writes"] for o in obs["steps"]): return None
         return json.dumps(case, sort_keys=True)
 
     def branches(self, case, obs):
         out = ["auth" if case["auth"] else "noauth"] + ["opt:" + k for k in (case.get("opts") or {})]
+        if case.get("op") == "replay":
+            ws = obs["steps"][0]["writes"]
+            if obs["errors"]: out.append("replay:layer-assertion(no write)")
+            return out + [f"replay:run={case['run']}:rec={case['rec']}:{case['scheme']}:" +
+                          ",".join(f"{w['dest']}.{w['form']}:{'cred' if w['creds'] else 'nocred'}" for w in ws)]
         if case.get("pauth"): out.append("proxyauth:" + case["pauth"])
         if case.get("cred"): out.append("cred:variant")
         for st, o in zip(case["steps"], obs["steps"]):
+            if st["k"] == "opt":
+                out.append(f"upstream_auth:={st['auth']}"); continue
             mode = case["conns"][st["c"]]["mode"]
             for w in o["writes"]:
                 out.append(f"{mode}:{w['dest']}.{w['form']}{'.tls' if w['tls'] else ''}:" + ("cred" if w["creds"] else "nocred"))
@@ -506,6 +621,7 @@ class Check(PropertyCheck):
         return out
 
     def neighbours(self, case, rng):
+        if case.get("op") == "replay": return
         for i in range(len(case["steps"])):
             for k in self.STEPS:
                 c = json.loads(json.dumps(case)); c["steps"][i]["k"] = k
